@@ -46,7 +46,7 @@ def check(case):
         typ = rx["type"]
         rep = len(set(rx["r"])) < len(rx["r"])
         tag = typ if typ != "massaction" else ("massaction_order%d" % min(len(rx["r"]), 3) + ("_repeated" if rep else ""))
-        res.label(f"{flavour}:{typ}")
+        res.label(f"{flavour}:{typ}", *(["tiny_rate_constant"] if rx.get("tiny") else []))
         if typ != "massaction" or (len(rx["r"]) >= 2 and rep):
             nt = True
         # stoichiometry of the document = multiplicities of the reaction
@@ -81,7 +81,9 @@ def check(case):
                 continue
             if not (math.isfinite(own) and math.isfinite(got)):
                 continue
-            if abs(got - own) > 1e-9 * max(1.0, abs(own), abs(got)):
+            # purely relative: a rate constant of 1e-14 is as good a rate constant as 1 (both sides evaluate the same
+            # formula in double precision; they differ by a few ulp of libm pow at most)
+            if abs(got - own) > 1e-9 * max(abs(own), abs(got)) + 1e-300:
                 res.fail(("kinetic_law_value", tag, flavour), reaction=j, state=st_, got=got, own_rate=own,
                          formula=libsbml.formulaToL3String(kl.getMath()), rxn=rx)
                 break
@@ -89,9 +91,23 @@ def check(case):
     return res
 
 
+def tiny_rate_constants(draw, sp):
+    """Now and then a mass-action rate constant is very small or has many digits (molar units, fitted values)."""
+    for rx in sp["reactions"]:
+        if rx["type"] == "massaction" and draw(st.integers(0, 3)) == 0:
+            f = draw(st.sampled_from([1e-13, 3.2e-15, 1.6605390671e-6, 7.25e-13]))
+            k = rx["pd"]["k"]
+            if isinstance(k, str):
+                sp["params"][k] = float(sp["params"][k]) * f
+            else:
+                rx["pd"]["k"] = float(k) * f
+            rx["tiny"] = True
+
+
 @st.composite
 def cases(draw):
     sp = draw(gen.structural_models(step=False, time=False, delay_prob=5))
+    tiny_rate_constants(draw, sp)
     stochastic = draw(st.booleans())
     states = []
     for _ in range(draw(st.integers(2, 5))):
